@@ -529,7 +529,12 @@ func VerifRunID(i *Interpreter) uint64 { return i.runid() }
 func main() {
 	repo := flag.String("repo", "/repo", "yaegi tree")
 	out := flag.String("out", "", "output directory (created)")
+	as := flag.String("as", "", "path under which the build sees the tree (overlay keys); default: -repo")
 	flag.Parse()
+	if *as == "" {
+		*as = *repo
+	}
+	asDir := filepath.Join(*as, "interp")
 	if *out == "" {
 		die("-out required")
 	}
@@ -581,14 +586,28 @@ func main() {
 		if strings.Count(string(res), "\n") != strings.Count(string(src), "\n") {
 			die("%s: line count changed", n)
 		}
-		if len(w.edits) == 0 && len(src1) == len(src) {
+		if len(w.edits) == 0 && len(src1) == len(src) && asDir == dir {
 			continue
 		}
 		dst := filepath.Join(*out, n)
 		if err := os.WriteFile(dst, res, 0o644); err != nil {
 			die("%v", err)
 		}
-		overlay[filepath.Join(dir, n)] = dst
+		overlay[filepath.Join(asDir, n)] = dst
+	}
+	if asDir != dir {
+		// files of the build's tree that the woven tree does not have are deleted
+		if ents2, err := os.ReadDir(asDir); err == nil {
+			for _, e := range ents2 {
+				n := e.Name()
+				if e.IsDir() || !strings.HasSuffix(n, ".go") || strings.HasSuffix(n, "_test.go") {
+					continue
+				}
+				if _, ok := overlay[filepath.Join(asDir, n)]; !ok {
+					overlay[filepath.Join(asDir, n)] = ""
+				}
+			}
+		}
 	}
 	var b strings.Builder
 	b.WriteString(hooksSrc)
@@ -601,7 +620,7 @@ func main() {
 	if err := os.WriteFile(hp, []byte(b.String()), 0o644); err != nil {
 		die("%v", err)
 	}
-	overlay[filepath.Join(dir, "zz_verif_hooks.go")] = hp
+	overlay[filepath.Join(asDir, "zz_verif_hooks.go")] = hp
 	js, _ := json.MarshalIndent(map[string]any{"Replace": overlay}, "", " ")
 	if err := os.WriteFile(filepath.Join(*out, "overlay.json"), js, 0o644); err != nil {
 		die("%v", err)
